@@ -21,6 +21,7 @@ void   sim_alloc_fail_at2(long k2);         /* a second single failure in the sa
 long   sim_alloc_op_count(void);            /* library allocation requests seen in this op */
 int    sim_alloc_fault_fired(void);         /* number of NULLs handed to the library in this op */
 uintptr_t sim_alloc_fault_site(void);       /* return address (image relative) of the first refused request */
+void   sim_alloc_fill(int on, unsigned char byte); /* fresh (malloc/realloc-grown) library memory is filled with this byte */
 void   sim_alloc_always_move(int on);       /* realloc always returns a new address */
 void   sim_alloc_set_budget(long limit);    /* <0: unlimited. live+request>limit => refuse and count */
 long   sim_alloc_budget_refusals(void);
